@@ -38,11 +38,13 @@ inductive Stmt
   | bind (l : Var) (vs : List Var)
   /-- `dsts = gen.applymask(l, m, _)` -/
   | apply (dsts : List Var) (l : Var) (m : Var)
-  /-- `x[~m] = np.nan` — the table `x` blanked in place where the mask `m` is false (what
-      `applymask` does to each element, written into the same object; a 2-D boolean index on a
-      3-D table selects whole cells). The translator emits it only when no list still in use
-      holds the object (value semantics here, object semantics in Python). A `None` in `x`
-      (absent covariance) is a `TypeError` in Python and a stuck state here. -/
+  /-- `x[np.logical_not(m)] = np.nan` — the table `x` blanked in place where the mask `m` is
+      false (what `applymask` does to each element, written into the same object; a 2-D boolean
+      index on a 3-D table selects whole cells). Only the `logical_not` spelling: `x[~m]` is an
+      integer index for the 0/1 integer masks `HC_damp`/`HC_cov`/`HC_phi_comp` return. The
+      translator emits it only when no list still in use holds the object (value semantics here,
+      object semantics in Python). A `None` in `x` (absent covariance) is a `TypeError` in Python
+      and a stuck state here. -/
   | blank (x : Var) (m : Var)
 deriving Repr, DecidableEq
 
